@@ -670,3 +670,205 @@ impl Scenario for C03TokenSoups {
         Ok(())
     }
 }
+
+/// supplementary input sampling: small inputs whose *shape* (nesting depth, references to named A2ML types) is
+/// extreme rather than their content. The loader must answer with a model or an error: it may neither exhaust the
+/// stack (process abort) nor amplify a few hundred bytes into gigabytes.
+pub struct C03Nesting;
+
+impl Scenario for C03Nesting {
+    fn property(&self) -> &'static str {
+        "C03"
+    }
+    fn name(&self) -> &'static str {
+        "nesting_and_amplification"
+    }
+    fn run(&self, cx: &mut Cx) -> Result<(), Violation> {
+        let fs = SimFs::new("/work", cx.tape.draw_u64());
+        fs.install();
+        let shape = cx.tape.draw(9);
+        let depth = *cx.tape.pick(&[3usize, 20, 100, 130, 300, 2_000, 20_000, 150_000]);
+        let mut a2ml = String::new();
+        let mut ifdata = String::new();
+        let shape_name;
+        match shape {
+            0 => {
+                // uninterpreted IF_DATA: /begin a /begin a ... /end a /end a
+                shape_name = "unknown-if_data-blocks";
+                let tag = cx.tape.pick_str(&["a", "BLK", "x1"]);
+                ifdata.push_str("/begin IF_DATA x ");
+                for _ in 0..depth {
+                    ifdata.push_str(&format!("/begin {tag} "));
+                }
+                ifdata.push_str("1 ");
+                let closed = if cx.tape.chance(1, 4) { depth / 2 } else { depth };
+                for _ in 0..closed {
+                    ifdata.push_str(&format!("/end {tag} "));
+                }
+                ifdata.push_str("/end IF_DATA");
+            }
+            1 | 2 | 3 => {
+                // A2ML types nested in themselves
+                let (open, close): (&str, &str) = match shape {
+                    1 => ("struct { ", "; }"),
+                    2 => ("taggedstruct { \"T\" ", "; }"),
+                    _ => ("taggedunion { block \"B\" ", "; }"),
+                };
+                shape_name = ["", "a2ml-struct-nesting", "a2ml-taggedstruct-nesting", "a2ml-taggedunion-nesting"][shape as usize];
+                a2ml.push_str("block \"IF_DATA\" ");
+                for _ in 0..depth {
+                    a2ml.push_str(open);
+                }
+                a2ml.push_str("int");
+                for _ in 0..depth {
+                    a2ml.push_str(close);
+                }
+                a2ml.push(';');
+                ifdata.push_str("/begin IF_DATA ");
+                if shape == 1 {
+                    ifdata.push('1');
+                } else {
+                    // data that follows the definition some levels down
+                    for _ in 0..depth.min(40) {
+                        ifdata.push_str(if shape == 2 { "T " } else { "/begin B " });
+                    }
+                    ifdata.push_str("1 ");
+                    if shape == 3 {
+                        for _ in 0..depth.min(40) {
+                            ifdata.push_str("/end B ");
+                        }
+                    }
+                }
+                ifdata.push_str(" /end IF_DATA");
+            }
+            4 => {
+                // a chain of named types: flat text, deep expanded type
+                shape_name = "a2ml-named-chain";
+                let kw = cx.tape.pick_str(&["struct", "taggedstruct", "taggedunion"]);
+                let member = |i: usize| match kw {
+                    "struct" => format!("struct s{i};"),
+                    "taggedstruct" => format!("\"T\" taggedstruct s{i};"),
+                    _ => format!("\"T\" taggedunion s{i};"),
+                };
+                let leaf = if kw == "struct" { "int;" } else { "\"T\" int;" };
+                let n = depth.min(20_000);
+                a2ml.push_str(&format!("{kw} s0 {{ {leaf} }};\n"));
+                for i in 1..=n {
+                    a2ml.push_str(&format!("{kw} s{i} {{ {} }};\n", member(i - 1)));
+                }
+                a2ml.push_str(&format!("block \"IF_DATA\" {kw} s{n};"));
+                ifdata.push_str("/begin IF_DATA ");
+                if kw == "struct" {
+                    ifdata.push('1');
+                } else {
+                    for _ in 0..n.min(50) {
+                        ifdata.push_str("T ");
+                    }
+                    ifdata.push('1');
+                }
+                ifdata.push_str(" /end IF_DATA");
+            }
+            5 | 6 => {
+                // every level references the previous one k times: the expanded type has k^n nodes
+                shape_name = "a2ml-named-fanout";
+                let k = *cx.tape.pick(&[2usize, 2, 3, 8]);
+                let kw = cx.tape.pick_str(&["struct", "taggedstruct"]);
+                // k^levels up to about 2^22 (struct) / 2^20 (taggedstruct, larger nodes) nodes on a tree without a limit:
+                // enough to exceed the memory allowance several times, not enough to exhaust the machine
+                let max_levels = match (k, kw) {
+                    (2, "struct") => 22,
+                    (2, _) => 20,
+                    (3, "struct") => 13,
+                    (3, _) => 12,
+                    (_, "struct") => 7,
+                    _ => 6,
+                };
+                let levels = 1 + cx.tape.draw(max_levels) as usize;
+                a2ml.push_str(&format!("{kw} s0 {{ {} }};\n", if kw == "struct" { "int;" } else { "\"L\" int;" }));
+                for i in 1..=levels {
+                    a2ml.push_str(&format!("{kw} s{i} {{ "));
+                    for j in 0..k {
+                        if kw == "struct" {
+                            a2ml.push_str(&format!("struct s{}; ", i - 1));
+                        } else {
+                            a2ml.push_str(&format!("\"T{j}\" taggedstruct s{}; ", i - 1));
+                        }
+                    }
+                    a2ml.push_str("};\n");
+                }
+                a2ml.push_str(&format!("block \"IF_DATA\" {kw} s{levels};"));
+                ifdata.push_str("/begin IF_DATA 1 2 3 /end IF_DATA");
+                if k.pow(levels as u32) >= 1 << 20 {
+                    cx.probe("named-type-fanout>=2^20-nodes");
+                }
+            }
+            7 => {
+                // arrays of arrays and huge dimensions
+                shape_name = "a2ml-array-dimensions";
+                a2ml.push_str("block \"IF_DATA\" struct { int");
+                for _ in 0..depth.min(2_000) {
+                    a2ml.push_str(&format!("[{}]", cx.tape.pick_str(&["1", "2", "1000", "4294967295", "0"])));
+                }
+                a2ml.push_str("; };");
+                ifdata.push_str("/begin IF_DATA 1 2 3 /end IF_DATA");
+            }
+            _ => {
+                // unknown (non-strict) blocks of the A2L level nested in themselves, and comments / strings of that size
+                shape_name = "unknown-a2l-blocks";
+                for _ in 0..depth {
+                    ifdata.push_str("/begin UNKNOWN_THING 1 ");
+                }
+                let closed = if cx.tape.chance(1, 4) { depth / 2 } else { depth };
+                for _ in 0..closed {
+                    ifdata.push_str("/end UNKNOWN_THING ");
+                }
+            }
+        }
+        let spec_arg = !a2ml.is_empty() && cx.tape.chance(1, 3);
+        let mut text = String::from("ASAP2_VERSION 1 71\n/begin PROJECT p \"\"\n/begin MODULE m \"\"\n");
+        if !a2ml.is_empty() && !spec_arg {
+            text.push_str("/begin A2ML\n");
+            text.push_str(&a2ml);
+            text.push_str("\n/end A2ML\n");
+        }
+        text.push_str(&ifdata);
+        text.push_str("\n/end MODULE\n/end PROJECT\n");
+        let strict = cx.tape.chance(1, 3);
+        let file_entry = cx.tape.chance(1, 4);
+        let spec = if spec_arg { Some(a2ml.clone()) } else { None };
+        cx.event_lazy(&format!("{shape_name}, depth parameter {depth}, {} bytes, strict={strict}, a2ml as argument={spec_arg}, file entry={file_entry}", text.len()), || crate::runner::clip(&text, 700));
+        if depth >= 2_000 {
+            cx.probe("nesting-depth>=2000");
+        }
+        let total = text.len();
+        let r = if file_entry {
+            fs.put("/work/deep.a2l", text.as_bytes());
+            fs.begin_op(BTreeMap::new(), false);
+            sut::load_path(cx, "totality", "/work/deep.a2l", spec, strict, total)?
+        } else {
+            sut::load_str(cx, "totality", &text, spec, strict)?
+        };
+        let outcome = match &r {
+            Ok((_, d)) if d.is_empty() => "Ok".to_string(),
+            Ok(_) => "Ok+diagnostics".to_string(),
+            Err(e) => sut::err_class(e),
+        };
+        // a model that was returned must also be writable and droppable without exhausting the stack
+        if let Ok((file, _)) = &r {
+            let w = sut::write_str(cx, "totality", file)?;
+            std::hint::black_box(w.len());
+        }
+        crate::runner::guarded(cx, "totality", "drop of the returned model", move || drop(r))?;
+        cx.event(&format!("-> {outcome}"));
+        cx.nontrivial = true;
+        let dclass = match depth {
+            0..=20 => 0,
+            21..=130 => 1,
+            131..=2_000 => 2,
+            _ => 3,
+        };
+        cx.sig(&format!("nest|{shape_name}|{dclass}|{strict}|{spec_arg}|{outcome}"));
+        SimFs::uninstall();
+        Ok(())
+    }
+}
